@@ -46,7 +46,17 @@ def size_specs(rng, n, block_size_of):
         else:
             lst.append(["var", 1, n] if rng.random() < 0.7 else ["var", rng.randint(1, n), n])
     yield "list", lst
-    yield "array", [["var", 1, n] if rng.random() < 0.7 else ["var", block_size_of[v], block_size_of[v]] for v in range(n)]
+    arr = []
+    for v in range(n):
+        k = rng.random()
+        if k < 0.5:
+            arr.append(["var", 1, n])
+        elif k < 0.8:
+            arr.append(["var", block_size_of[v], block_size_of[v]])
+        else:
+            s = rng.randint(1, n)  # a pinned size that may contradict the block (singleton-domain variable)
+            arr.append(["var", s, s])
+    yield "array", arr
 
 
 def mk_size(s, spec):
